@@ -54,7 +54,7 @@ var dhcpClients = []refdec.MAC{{0x02, 0xc1, 0, 0, 0, 1}, {0x02, 0xc2, 0, 0, 0, 2
 var bystander = refdec.MAC{0x02, 0xdd, 0, 0, 0, 9}
 
 type dop struct {
-	K string // disc discrep sel selother renew reboot decline release cap rel adv foreign learn inform restart
+	K string // disc discrep sel selother renew reboot decline release cap rel adv foreign learn crowd inform restart
 	C int    // client
 	P int    // parameter choice
 	D time.Duration
@@ -84,6 +84,7 @@ type dclient struct {
 type dhcpRun struct {
 	c      *wk.Ctx
 	idx    int64
+	base   int64 // offset of the case index when the workload runs as a sub-stream of another property's check (C07)
 	ops    []dop
 	net    dhcpNet
 	mode   dhcp4_spoofer.Mode
@@ -215,7 +216,7 @@ func (d *dhcpRun) history() {
 			}
 			ops = append(ops, o.String())
 		}
-		return map[string]any{"index": d.idx, "history": ops, "failing_step": step, "net": d.net.name, "mode": int(d.mode), "dns_configured": d.dns.IsValid()}
+		return map[string]any{"index": d.base + d.idx, "history": ops, "failing_step": step, "net": d.net.name, "mode": int(d.mode), "dns_configured": d.dns.IsValid()}
 	}
 	tracked := func(a netip.Addr) (refdec.MAC, bool) {
 		if host := s.FindIP(a); host != nil {
@@ -257,8 +258,11 @@ func (d *dhcpRun) history() {
 			if id := d.clientID(cl); id != nil {
 				q.Options = append(q.Options, refdec.DHCPOpt{Code: 61, Data: id})
 			}
-			if o.P%2 == 1 {
-				q.Options = append(q.Options, refdec.DHCPOpt{Code: 55, Data: []byte{3, 1, 6, 51}})
+			// parameter request list: absent, empty, the usual ones, and lists that name the router without the mask, the mask
+			// without the router, neither, or options the server never sends (the reply must be well-formed whatever is asked)
+			prls := [][]byte{nil, {3, 1, 6, 51}, nil, {1, 3, 6, 15}, {}, {3, 6}, {6, 3}, {3}, {1}, {15, 6}, {51, 58, 59, 3}, {6, 15, 119, 252}, {3, 3, 1, 1}}
+			if prl := prls[(o.P+step*7+int(d.idx))%len(prls)]; prl != nil {
+				q.Options = append(q.Options, refdec.DHCPOpt{Code: 55, Data: prl})
 			}
 			return q
 		}
@@ -390,6 +394,38 @@ func (d *dhcpRun) history() {
 			copy(q.CHAddr[:], cl.mac[:])
 			q.Options = []refdec.DHCPOpt{{Code: 53, Data: []byte{2}}, {Code: 54, Data: ip4b(nic.RouterIP)}, {Code: 51, Data: []byte{0, 0, 14, 16}}}
 			frameB = dhcpFrame(toMAC(nic.RouterMAC), nic.RouterIP, bc, q, 67, 68, bcastMAC)
+		case "crowd":
+			// other stations (static configuration) show up on almost every address of a small subnet: the pool is exhausted
+			// but for its lowest 0..2 free addresses, and every search of the pool runs into its end
+			lan := d.net.nic.HomeLAN
+			if o.P%2 == 1 {
+				lan = d.net.netfilter.Masked()
+			}
+			if lan.Bits() >= 28 {
+				var free []netip.Addr
+				for a := lan.Addr().Next(); lan.Contains(a.Next()); a = a.Next() {
+					taken := a == nic.HostIP || a == nic.RouterIP || s.FindIP(a) != nil
+					for _, x := range cls {
+						taken = taken || a == x.acked || a == x.offered
+					}
+					if !taken {
+						free = append(free, a)
+					}
+				}
+				for k, a := range free {
+					if k < o.P/2%3 {
+						continue
+					}
+					b4 := a.As4()
+					st := refdec.MAC{0x02, 0xdd, 1, 0, 0, b4[3]}
+					fb := refdec.Ether(toMAC(nic.HostMAC), st, 0x0800, 0, refdec.IP4(refdec.IP4Hdr{TTL: 64, Proto: 17, Src: a, Dst: nic.HostIP}, refdec.UDP(40001, 40002, nil)))
+					if frame, err := s.Parse(rx.load(fb)); err == nil {
+						s.Notify(frame)
+					}
+					rx.scribble()
+				}
+				c.Obs("dhcp_pools_crowded", 1)
+			}
 		case "learn":
 			a := d.pickAddr(1, cl, cls, o.P%2 == 1)
 			frameB = refdec.Ether(toMAC(nic.HostMAC), bystander, 0x0800, 0, refdec.IP4(refdec.IP4Hdr{TTL: 64, Proto: 17, Src: a, Dst: nic.HostIP}, refdec.UDP(40001, 40002, nil)))
@@ -552,6 +588,9 @@ func randDop(r *rand.Rand) dop {
 	case k < 22:
 		return dop{K: "foreign", C: c}
 	case k < 23:
+		if r.Intn(3) == 0 {
+			return dop{K: "crowd", C: c, P: r.Intn(6)}
+		}
 		return dop{K: "learn", C: c, P: r.Intn(2)}
 	}
 	return dop{K: "inform", C: c}
@@ -592,10 +631,16 @@ func runDHCP(c *wk.Ctx) {
 	for i := 0; i < depth; i++ {
 		nExh *= int64(len(dhcpAlphabet))
 	}
+	// as a sub-stream of C07 (every frame the DHCP server sends goes through the transmit rules) the case indexes are moved
+	// out of the way of that check's own
+	base := int64(0)
+	if c.Prop == "C07" {
+		base = 3_000_000_000
+	}
 	run := func(idx int64, ops []dop, kind string, r *rand.Rand) {
-		c.Begin(idx, "dhcp-history", nil)
+		c.Begin(base+idx, "dhcp-history", nil)
 		c.Eval()
-		d := &dhcpRun{c: c, idx: idx, ops: ops, net: nets[int(idx)%len(nets)], mode: modes[int(idx/3)%len(modes)], real: real}
+		d := &dhcpRun{c: c, idx: idx, base: base, ops: ops, net: nets[int(idx)%len(nets)], mode: modes[int(idx/3)%len(modes)], real: real}
 		if idx%2 == 0 {
 			d.dns = netip.MustParseAddr("9.9.9.9")
 		}
@@ -614,7 +659,7 @@ func runDHCP(c *wk.Ctx) {
 	}
 	for i := int64(0); i < nExh; i++ {
 		idx := i + 1
-		if !c.Mine(idx) {
+		if !c.Mine(base + idx) {
 			continue
 		}
 		ops := make([]dop, depth)
@@ -629,7 +674,7 @@ func runDHCP(c *wk.Ctx) {
 	nRand := c.N(5_000, 300_000)
 	for i := int64(0); i < nRand; i++ {
 		idx := 1_000_000_000 + i
-		if !c.Mine(idx) {
+		if !c.Mine(base + idx) {
 			continue
 		}
 		r := c.Rand("dhcp", i)
